@@ -521,7 +521,33 @@ func runJoin(c *h.Ctx, jc JoinCase) {
 		c.Fail("C15/parse/rejects-valid", "Parse(%q): %v", jc.Base, err)
 		return
 	}
-	got := base.Join(jc.Segs...)
+	// the segments are the caller's: handed over as a spread slice (with spare capacity, as append leaves it), they are
+	// read, not written; the same slice gives the same command when it is used again
+	orig := append([]string{}, jc.Segs...)
+	callers := make([]string, len(orig), len(orig)+4)
+	copy(callers, orig)
+	got := base.Join(callers...)
+	if !eqStrs(callers, orig) {
+		c.Fail("C15/join/callers-slice-written", "%q.Join(segs...) changed the caller's slice from %q to %q", jc.Base, orig, callers)
+		return
+	}
+	if again := base.Join(callers...); again != got {
+		c.Fail("C15/join/not-repeatable", "%q.Join(%q) gives %q, then %q", jc.Base, orig, got, again)
+		return
+	}
+	n0 := command.New(callers...)
+	if !eqStrs(callers, orig) || command.New(callers...) != n0 {
+		c.Fail("C15/join/callers-slice-written", "New(segs...) changed the caller's slice from %q to %q (or is not repeatable)", orig, callers)
+		return
+	}
+	jc.Segs = orig
+	for _, sg := range orig {
+		if sg == "" {
+			// what an EMPTY segment contributes is not said; only the clauses above apply
+			c.P.Class("join/with-empty-segment")
+			return
+		}
+	}
 	want := append(append([]string{}, refSegments(jc.Base)...), jc.Segs...)
 	if !eqStrs(got.Segments(), want) {
 		c.Fail("C15/join/segments", "%q.Join(%q) = %q with segments %q, want segments %q", jc.Base, jc.Segs, got, got.Segments(), want)
@@ -548,6 +574,9 @@ var join = h.Define(P, "join", func(t *rapid.T) JoinCase {
 	segs := make([]string, n)
 	for i := range segs {
 		segs[i] = rapid.SampledFrom(nonEmptySegs).Draw(t, "seg")
+		if rapid.IntRange(0, 5).Draw(t, "emptyseg") == 0 {
+			segs[i] = ""
+		}
 	}
 	if n == 0 {
 		segs = nil
